@@ -607,6 +607,14 @@ func (run *loaderRun) judge(l *LLoad, c *collector, tops []int, err error) {
 		if _, ok := expected[m]; ok {
 			continue
 		}
+		if strings.HasPrefix(m, "DECOY:") && strings.Contains(m, "/shadow.go/") {
+			// a same-named package at a place searched later: it may only run when a disk fault or
+			// an edit kept the loader from seeing the place searched first
+			if !anyFault && d.Fired["edit"] == 0 {
+				run.fail("C15/search", "later-candidate-won", "marker %s ran: a package at a directory that is searched later than the one holding the real package was loaded instead", m)
+			}
+			continue
+		}
 		if strings.HasPrefix(m, "DECOY:") {
 			kind := "constraint"
 			if strings.Contains(m, "_test.go/") {
